@@ -16,7 +16,8 @@ theorem readLoop_good {bs : Bytes} {tbl : Tbl} (hb : okBegin bs = true) :
         readLoop bs tbl X acc =
           { buf := b', delivered := acc ++ done.map (fun f => (msgOf bs tbl f, f)) } ∧
         Good bs tbl (g' :: gsl) left ∧ b' ++ R = interleave (g' :: gsl) left ∧
-        lastG (g' :: gsl) <:+ lastG (g0 :: gs) ∧ Short b' g' left := by
+        lastG (g' :: gsl) <:+ lastG (g0 :: gs) ∧
+        (∃ gj, (g0 :: gs).drop done.length = gj :: gsl ∧ g' <:+ gj) ∧ Short b' g' left := by
   intro frames
   induction frames with
   | nil =>
@@ -32,11 +33,12 @@ theorem readLoop_good {bs : Bytes} {tbl : Tbl} (hb : okBegin bs = true) :
     obtain ⟨k, hk5, hkl, _, hkeq, hrl⟩ := readLoop_junk (bs := bs) (tbl := tbl) (acc := acc) hX
     have hdrop : X.drop (X.length - k) ++ R = g0.drop (X.length - k) := by
       rw [← hs, List.drop_append_of_le_length (by omega)]
-    refine ⟨[], [], X.drop (X.length - k) ++ R, [], X.drop (X.length - k), rfl, ?_, ?_, rfl, ?_, ?_⟩
+    refine ⟨[], [], X.drop (X.length - k) ++ R, [], X.drop (X.length - k), rfl, ?_, ?_, rfl, ?_, ?_, ?_⟩
     · simpa using hrl
     · exact hgood.newHead (by rw [hdrop]; exact NoMarker_drop hg0 _)
     · simp only [lastG, List.getLast?_singleton, Option.getD_some]
       rw [hdrop]; exact List.drop_suffix _ _
+    · exact ⟨g0, rfl, by rw [hdrop]; exact List.drop_suffix _ _⟩
     · exact ⟨k, by omega, hkeq⟩
   | cons f fs ih =>
     intro g0 gs X R acc hgood hs
@@ -61,12 +63,13 @@ theorem readLoop_good {bs : Bytes} {tbl : Tbl} (hb : okBegin bs = true) :
       have hdropX : X.drop (g0.length + f.length) = X' := by
         rw [hX, ← List.append_assoc, ← List.length_append, List.drop_left]
       rw [hdropX] at hstep
-      obtain ⟨done, left, g', gsl, b', hfr, hrl, hgd, hbr, hlast, hshort⟩ :=
+      obtain ⟨done, left, g', gsl, b', hfr, hrl, hgd, hbr, hlast, hdropj, hshort⟩ :=
         ih g1 gs' X' R (acc ++ [(m, f)]) hgood.tail hX'
-      refine ⟨f :: done, left, g', gsl, b', by rw [hfr]; rfl, ?_, hgd, hbr, ?_, hshort⟩
+      refine ⟨f :: done, left, g', gsl, b', by rw [hfr]; rfl, ?_, hgd, hbr, ?_, ?_, hshort⟩
       · rw [hstep, hrl]
         simp only [List.map_cons, msgOf_eq hd, List.append_assoc, List.cons_append, List.nil_append]
       · rw [lastG_cons_cons]; exact hlast
+      · simpa using hdropj
     · -- the first frame is not complete yet
       have hfull' : X.length < g0.length + f.length := by omega
       -- marker-free buffer?
@@ -100,11 +103,12 @@ theorem readLoop_good {bs : Bytes} {tbl : Tbl} (hb : okBegin bs = true) :
         generalize hd' : X.length - partialMarkerKeep X = d at *
         have hdrop : X.drop d ++ R = g0.drop d ++ (f ++ interleave (g1 :: gs') fs) := by
           rw [← List.drop_append_of_le_length hdle, ← hs, List.drop_append_of_le_length (by omega)]
-        refine ⟨[], f :: fs, g0.drop d, g1 :: gs', X.drop d, rfl, ?_, ?_, ?_, ?_, ?_⟩
+        refine ⟨[], f :: fs, g0.drop d, g1 :: gs', X.drop d, rfl, ?_, ?_, ?_, ?_, ?_, ?_⟩
         · simpa using hrl
         · exact hgood.newHead (NoMarker_drop hg0 _)
         · simpa only [interleave] using hdrop
         · rw [lastG_cons_cons, lastG_cons_cons]; exact List.suffix_refl _
+        · exact ⟨g0, rfl, List.drop_suffix _ _⟩
         · show (X.drop d).length < (g0.drop d).length + f.length
           rw [hkeq]
           simp only [List.length_take, marker_length, List.length_drop]
@@ -119,11 +123,12 @@ theorem readLoop_good {bs : Bytes} {tbl : Tbl} (hb : okBegin bs = true) :
         rw [← hX] at hdec
         have hrl := readLoop_none (acc := acc) hdec
         rw [hpd] at hrl
-        refine ⟨[], f :: fs, [], g1 :: gs', p, rfl, ?_, ?_, ?_, ?_, ?_⟩
+        refine ⟨[], f :: fs, [], g1 :: gs', p, rfl, ?_, ?_, ?_, ?_, ?_, ?_⟩
         · simpa using hrl
         · exact hgood.newHead NoMarker_nil
         · simpa only [interleave, List.nil_append] using hp
         · rw [lastG_cons_cons, lastG_cons_cons]; exact List.suffix_refl _
+        · exact ⟨g0, rfl, List.nil_suffix⟩
         · show p.length < ([] : Bytes).length + f.length
           simp only [List.length_nil]; omega
 
@@ -168,7 +173,7 @@ theorem feedAll_good {bs : Bytes} {tbl : Tbl} (hb : okBegin bs = true) :
   | cons c cs ih =>
     intro buf acc frames g0 gs hgood hs hshort
     simp only [List.flatten_cons, ← List.append_assoc] at hs
-    obtain ⟨done, left, g', gsl, b', hfr, hrl, hgd, hbr, hlast, hsh'⟩ :=
+    obtain ⟨done, left, g', gsl, b', hfr, hrl, hgd, hbr, hlast, _, hsh'⟩ :=
       readLoop_good hb frames g0 gs (buf ++ c) cs.flatten [] hgood hs
     obtain ⟨h2, k, hk, h1, hsuf⟩ := ih b' (acc ++ done.map (fun f => (msgOf bs tbl f, f))) left g' gsl hgd hbr hsh'
     have hfeed : feedAll bs tbl buf (c :: cs) acc =
